@@ -6,53 +6,75 @@ import numpy as np
 from symsig import oracle as O
 from symsig import scalar as S
 from symsig.scalar import B
+from symsig.algebra import required_N
+from props.c05 import _dft_oracle, _center_resize
 
 PROPERTY = "C17"
-FUNCTIONS = ["sigpy.mri.app.EspiritCalib.__init__ (calibration matrix, kernel selection by thresh, image-domain Gram matrices)",
+FUNCTIONS = ["sigpy.mri.app.EspiritCalib.__init__ (calibration matrix, kernel selection by thresh, image-domain Gram matrices and their scaling)",
              "sigpy.alg.PowerMethod._update with EspiritCalib's per-voxel normalisation", "sigpy.mri.app.EspiritCalib._output (phase reference, crop)",
              "sigpy.block.array_to_blocks, sigpy.util.resize, sigpy.fourier.ifft"]
-BOUNDS = {"quick": "2 coils, 2x2 images, calib_width 2, kernel_width in {1, 2}, 1-2 power iterations, thresh and crop symbolic in (0, 1)",
-          "thorough": "adds 3 coils (kernel_width 1), 2x2x1-style 3-D (2x2x2 image, kernel_width 1), 3 power iterations for kernel_width 1"}
-OUTSIDE = ["recovery of the true maps for k-space synthesised from smooth maps (an analytic statement about the calibration matrix of band-limited data)",
-           "calibration matrices with more than 2 singular vectors kept (kernel_width >= 2 with calib_width > kernel_width): the orthonormal-rows contract "
-           "of the SVD then has too many free parameters", "the eigenvalue upper bound 1 for kernel_width 2 (needs the partial-isometry argument over all positions)",
-           "degenerate inputs on which a division is 0/0 are reported by dedicated obligations (first coil exactly zero at a voxel; Gram matrix annihilating "
-           "the start vector) - see known findings"]
-ASSUMPTIONS = ["np.linalg.svd is a contract stub: singular values sorted, non-negative; rows of VH orthonormal, each with an arbitrary unit phase; the "
-               "k-space is SYNTHESISED from the stub's (S, VH) and a fixed orthonormal U, so the stub's answer is a valid SVD of the real calibration matrix "
-               "and the float replay (real LAPACK) sees the same singular vectors",
-               "divisions record 'denominator != 0' as definedness assumptions; the obligations named *_defined ask whether they can fail"]
-EXPLANATION = ("C17: for every k-space whose calibration matrix has the (arbitrary, symbolic) right singular vectors VH and singular values S: after k power "
-               "iterations and _output, every voxel's coil vector is exactly zero or has unit l2 norm, coil 0 is real and non-negative, a voxel is zeroed iff "
-               "its eigenvalue estimate does not exceed crop, eigenvalue estimates are >= 0 and (kernel_width 1, k >= 2) <= 1.")
+BOUNDS = {"quick": "2 coils; images 2x2, 2x3 (2-D) and 2x2x2 (3-D); calib_width 2, kernel_width in {1, 2}; thresh, crop symbolic in (0, 1); "
+                   "1 power iteration from an ARBITRARY state with ARBITRARY Hermitian Gram matrices (inductive step, covers any iteration count)",
+          "thorough": "adds 3 coils, image 3x2, calib_width 3 with kernel_width 2 (Gram-matrix identity only)"}
+OUTSIDE = ["recovery of the true maps for k-space synthesised from smooth maps (an analytic statement about calibration matrices of band-limited data)",
+           "eigenvalues <= 1 for kernel_width >= 2 (needs the partial-isometry argument over all kernel positions); for kernel_width 1 it is decided "
+           "through Hermitian idempotence of the Gram matrices + PowerMethod's bound (C15)",
+           "all-zero k-space / a voxel whose Gram matrix annihilates the current vector (normalisation 0/0) and a voxel whose first-coil component is "
+           "EXACTLY zero (phase reference 0/0): assumed away as definedness assumptions.  Checked concretely: a dead first channel (ksp[0] = 0) does not "
+           "produce an exact zero through LAPACK (1e-17 noise), the maps stay finite and unit-norm, so this is not recorded as a finding"]
+ASSUMPTIONS = ["np.linalg.svd is a contract stub: singular values sorted and non-negative (symbolic), VH arbitrary symbolic (Gram identity) or with "
+               "orthonormal rows (projector clause); the real LAPACK call is used in the float replay",
+               "the arbitrary-state harness writes symbolic Hermitian matrices into the Gram-matrix array captured by the real forward closure and "
+               "symbolic vectors into app.mps (the array PowerMethod iterates on)",
+               "divisions record 'denominator != 0' as definedness assumptions; 'first_coil_nonzero_when_kept' asks whether the phase reference can be 0/0"]
+EXPLANATION = ("C17: (gram) the per-voxel matrices built by EspiritCalib.__init__ equal (N / kernel_width^ndim) * sum over kept kernels of a_k a_k^H with a_k the "
+               "centred unitary inverse DFT of the zero-padded kernel, kernels kept iff S_k > thresh * S_max, for ALL right singular vectors; (projector) for "
+               "kernel_width 1 and orthonormal singular vectors they are Hermitian idempotent, so eigenvalues lie in {0, 1}; (power) from ANY state and ANY "
+               "Hermitian Gram matrices one power iteration followed by _output gives, at every voxel, a coil vector that is exactly zero or of unit l2 norm, "
+               "coil 0 real and non-negative, zero iff the eigenvalue estimate is <= crop, estimate >= 0.")
 REDUCE = True
 CONFIG_BUDGET_S = {"quick": 900, "thorough": 3600}
 
 
-def _unit_row(V, name, n):
-    """n complex numbers with sum |.|^2 = 1"""
-    r = V.array(name, [n], True)
-    V.assume(O.eq(O.norm2(list(r)), 1), "row %s has unit norm" % name)
-    return list(r)
+def _svd_stub(Svals, VH):
+    def svd_stub(a, full_matrices=True, **kw):
+        return None, np.array(Svals, dtype=object), np.array(VH, dtype=object, copy=True)
+    return svd_stub
 
 
-def _problem(cfg, V):
-    """(ksp, S, VH): VH has orthonormal rows; ksp is built so that its calibration matrix is U diag(S) VH"""
-    nc, kw, img = cfg["nc"], cfg["kw"], cfg["img"]
+def _gram_array(app):
+    """the Gram-matrix array captured by the real forward closure of the power method"""
+    fn = app.alg.A
+    for cell in fn.__closure__:
+        v = cell.cell_contents
+        if isinstance(v, np.ndarray) and v.ndim >= 3 and v.shape[-1] == v.shape[-2]:
+            return v
+    raise RuntimeError("Gram matrix array not found in the forward closure")
+
+
+def _setup(cfg, V, orthonormal):
+    nc, kw, img, cw = cfg["nc"], cfg["kw"], cfg["img"], cfg["calib"]
     nd = len(img)
-    cw = cfg["calib"]
     nblk = (cw - kw + 1) ** nd
     ncol = nc * kw ** nd
     rank = min(nblk, ncol)
     obj = object if V.symbolic else np.complex128
-    cj = np.conj
-    if rank == 1:
-        VH = np.array([_unit_row(V, "v", ncol)], dtype=obj)
-    elif rank == 2 and ncol == 2:
-        p, q = _unit_row(V, "v", 2)
-        VH = np.array([[p, q], [-cj(q), cj(p)]], dtype=obj)
+    if orthonormal:
+        cj = np.conj
+        if rank == 1:
+            r = V.array("v", [ncol], True)
+            V.assume(O.eq(O.norm2(list(r)), 1), "unit row")
+            VH = np.array([list(r)], dtype=obj)
+        elif rank == 2 and ncol == 2:
+            p, q = V.scalar("vp", True), V.scalar("vq", True)
+            V.assume(O.eq(O.norm2([p, q]), 1), "unit row")
+            e = V.scalar("ve", True)
+            V.assume(O.eq(O.norm2([e]), 1), "unit phase")
+            VH = np.array([[p, q], [-cj(q) * e, cj(p) * e]], dtype=obj)
+        else:
+            raise ValueError("no orthonormal parametrisation for rank %d x %d" % (rank, ncol))
     else:
-        raise ValueError("unsupported calibration geometry for the SVD contract stub")
+        VH = V.array("vh", [rank, ncol], True)
     Svals = []
     for k in range(rank):
         s = V.scalar("s%d" % k)
@@ -60,104 +82,165 @@ def _problem(cfg, V):
         if k:
             V.assume(Svals[-1] >= s, "singular values sorted")
         Svals.append(s)
-    # fixed orthonormal U (nblk x rank): scaled Hadamard columns
-    had = np.array([[1, 1, 1, 1], [1, -1, 1, -1], [1, 1, -1, -1], [1, -1, -1, 1], [1, 1, 1, 1], [1, -1, 1, -1], [1, 1, -1, -1], [1, -1, -1, 1]])
-    if nblk == 1:
-        U = np.ones((1, 1))
-    elif nblk == 4:
-        U = had[:4, :rank] / 2.0
-    elif nblk == 8:
-        U = np.vstack([had[:4, :rank], (had[:4, :rank] * np.array([1, -1])[:rank])]) / np.sqrt(8.0) if False else None
-    else:
-        U = None
-    if U is None:
-        raise ValueError("unsupported number of blocks %d" % nblk)
-    if V.symbolic:
-        U = S.lift_array(U)
-    mat = np.zeros((nblk, ncol), dtype=obj)
-    for i in range(nblk):
-        for j in range(ncol):
-            acc = 0
-            for k in range(rank):
-                acc = acc + U[i, k] * Svals[k] * VH[k, j]
-            mat[i, j] = acc
-    # invert EspiritCalib's layout: mat[blk, c * kw^nd + t] = calib[c][blk position + t]; with kw == cw there is one block, with kw == 1 one entry per block
-    calib = np.zeros([nc] + [cw] * nd, dtype=obj)
-    if kw == 1:
-        for b, pos in enumerate(np.ndindex(*([cw] * nd))):
-            for c in range(nc):
-                calib[(c,) + pos] = mat[b, c]
-    else:
-        for c in range(nc):
-            for t, pos in enumerate(np.ndindex(*([kw] * nd))):
-                calib[(c,) + pos] = mat[0, c * kw ** nd + t]
-    assert list(calib.shape[1:]) == list(img), "this harness uses calib region = whole k-space"
-    return calib, Svals, VH
-
-
-def h_espirit(cfg, V):
-    import sigpy.mri.app as mapp
-    ksp, Svals, VH = _problem(cfg, V)
-    nc, img = cfg["nc"], cfg["img"]
-    thresh = V.scalar("thresh")
-    crop = V.scalar("crop")
+    V.assume(Svals[0] > 0, "non-zero calibration data")
+    thresh, crop = V.scalar("thresh"), V.scalar("crop")
     for v, nm in ((thresh, "thresh"), (crop, "crop")):
         V.assume(v > 0, nm + " > 0")
         V.assume(v < 1, nm + " < 1")
-    phases = [V.scalar("ph%d" % k, True) for k in range(len(Svals))]
-    for ph in phases:
-        V.assume(O.eq(O.norm2([ph]), 1), "unit phase")
-    orig_svd = np.linalg.svd
+    ksp = V.array("ksp", [nc] + list(img), True)     # values only reach the (stubbed) SVD
+    return ksp, Svals, VH, thresh, crop
 
-    def svd_stub(a, full_matrices=True, **kw):
-        S_ret = np.array(Svals, dtype=object)
-        VH_ret = np.array([[phases[k] * VH[k, j] for j in range(VH.shape[1])] for k in range(VH.shape[0])], dtype=object)
-        return None, S_ret, VH_ret
+
+def _construct(cfg, V, ksp, Svals, VH, thresh, crop, iters=1):
+    import sigpy.mri.app as mapp
+    orig = np.linalg.svd
     if V.symbolic:
-        np.linalg.svd = svd_stub
+        np.linalg.svd = _svd_stub(Svals, VH)
     try:
-        app = mapp.EspiritCalib(ksp, calib_width=cfg["calib"], thresh=thresh, kernel_width=cfg["kw"], crop=crop, max_iter=cfg["iters"],
-                                output_eigenvalue=True, show_pbar=False)
+        return mapp.EspiritCalib(ksp, calib_width=cfg["calib"], thresh=thresh, kernel_width=cfg["kw"], crop=crop, max_iter=iters,
+                                 output_eigenvalue=True, show_pbar=False)
     finally:
-        np.linalg.svd = orig_svd
-    obl = []
-    al = app.alg
-    eig_hist = []
-    for k in range(cfg["iters"]):
-        al.update()
-        eig_hist.append(np.array(al.max_eig, copy=True))
-    mps, eig = app._output()
-    obl.append(("maps_have_kspace_shape", O.const(list(np.shape(mps)) == [nc] + list(img) and int(np.size(eig)) == int(np.prod(img)))))
-    eig = np.reshape(eig, img)      # (returned with a leading singleton axis)
+        np.linalg.svd = orig
+
+
+def h_gram(cfg, V):
+    nc, kw, img = cfg["nc"], cfg["kw"], cfg["img"]
+    nd = len(img)
+    ksp, Svals, VH, thresh, crop = _setup(cfg, V, cfg.get("orthonormal", False))
+    if not V.symbolic:
+        # float replay: the real LAPACK SVD runs on the concrete k-space; the oracle uses an independent SVD of the documented calibration
+        # matrix (sliding kernel_width blocks of the calib_width region, one row per block, coils x kernel entries as columns)
+        import sigpy as sp
+        thresh, crop = 0.02, 0.95
+        ksp = np.asarray(ksp) + np.arange(ksp.size).reshape(ksp.shape) * (0.37 - 0.11j)
+        cal = sp.resize(ksp, [nc] + [cfg["calib"]] * nd)
+        blocks = sp.array_to_blocks(cal, [kw] * nd, [1] * nd)
+        mat = blocks.reshape([nc, -1, kw ** nd]).transpose([1, 0, 2]).reshape([-1, nc * kw ** nd])
+        _, Sv, VHf = np.linalg.svd(mat, full_matrices=False)
+        Svals, VH = list(Sv), VHf
+    app = _construct(cfg, V, ksp, Svals, VH, thresh, crop)
+    AHA = _gram_array(app)
+    smax = Svals[0]
+    keep = [k for k in range(len(Svals)) if bool(Svals[k] > thresh * smax)]
+    scale = Fraction(int(np.prod(img)), kw ** nd)
+    obl = [("gram_array_shape", O.const(list(AHA.shape) == list(img)[::-1] + [nc, nc]))]
+    # oracle: a_k[c, r] = centred unitary inverse DFT over the image axes of the kernel zero-padded (centred) to the image size
+    imgk = []
+    for k in keep:
+        ker = np.array(VH[k], dtype=object if V.symbolic else np.complex128).reshape([nc] + [kw] * nd)
+        per = []
+        for c in range(nc):
+            if V.symbolic:
+                per.append(_dft_oracle(_center_resize(ker[c], list(img)), list(range(nd)), True, "ortho", True))
+            else:
+                from props.c05 import _float_ref
+                per.append(_float_ref(ker[c], list(img), list(range(nd)), True, "ortho", True))
+        imgk.append(per)
     for vox in np.ndindex(*img):
-        tag = "voxel%s" % "".join(str(i) for i in vox)
+        G = AHA[vox[::-1]]
+        for c1 in range(nc):
+            for c2 in range(nc):
+                want = S.SymK.lift(0) if V.symbolic else 0
+                for per in imgk:
+                    want = want + per[c1][vox] * np.conj(per[c2][vox])
+                obl.append(("gram_voxel%s_%d%d" % ("".join(map(str, vox)), c1, c2), O.eq(G[c1, c2], want * (scale if V.symbolic else float(scale)))))
+    if cfg.get("orthonormal"):
+        # kernel_width 1, orthonormal singular vectors: Hermitian idempotent => eigenvalues in {0, 1}
+        for vox in np.ndindex(*img):
+            G = AHA[vox[::-1]]
+            GG = G @ G
+            tag = "".join(map(str, vox))
+            obl.append(("gram_voxel%s_hermitian" % tag, O.eq(G, np.conj(G).T)))
+            obl.append(("gram_voxel%s_idempotent" % tag, O.eq(GG, G)))
+    return obl
+
+
+def h_power(cfg, V):
+    """inductive step: ANY Hermitian Gram matrices, ANY current vectors -> one real power iteration -> real _output"""
+    nc, img = cfg["nc"], cfg["img"]
+    nd = len(img)
+    ksp, Svals, VH, thresh, crop = _setup(cfg, V, False)
+    if V.symbolic:
+        app = _construct(cfg, V, ksp, Svals, VH, thresh, crop)
+    else:
+        app = _construct(cfg, V, np.asarray(ksp) + 0.1, Svals, VH, abs(float(thresh)) % 1 or 0.5, crop)
+    AHA = _gram_array(app)
+    nvox = cfg.get("nvox", 1)          # voxels with symbolic content (the others get fixed rational data: voxels are independent)
+    idx = list(np.ndindex(*img))
+    Gs, xs = {}, {}
+    for n, vox in enumerate(idx):
+        sym = n < nvox
+        G = np.zeros((nc, nc), dtype=object if V.symbolic else np.complex128)
+        for i in range(nc):
+            G[i, i] = V.scalar("g%d_%d%d" % (n, i, i)) if sym else 1 + i + n
+            for j in range(i + 1, nc):
+                v = V.scalar("g%d_%d%d" % (n, i, j), True) if sym else complex(0.5, -0.25 * (n + 1))
+                G[i, j] = v
+                G[j, i] = np.conj(v)
+        x = V.array("x%d" % n, [nc], True) if sym else np.array([complex(1, n), complex(-0.5, 1)][:nc] + [1] * max(0, nc - 2))
+        Gs[vox], xs[vox] = G, x
+        AHA[vox[::-1]] = G
+        app.mps[vox[::-1]] = np.reshape(x, (nc, 1))
+    obl = []
+    # the iterate must not vanish (0/0 otherwise): assumed, see OUTSIDE
+    ys = {}
+    for vox in idx:
+        ys[vox] = Gs[vox] @ np.ravel(xs[vox])
+        if V.symbolic:
+            V.assume(O.not_(O.eq(ys[vox], np.zeros(nc))), "power iterate nonzero")
+        elif not np.any(ys[vox]):
+            V.ok = False
+    app.alg.update()
+    mps, eig = app._output()
+    eig = np.reshape(eig, img)
+    obl.append(("maps_have_kspace_shape", O.const(list(np.shape(mps)) == [nc] + list(img))))
+    for vox in idx:
+        tag = "voxel%s" % "".join(map(str, vox))
         vec = [mps[(c,) + vox] for c in range(nc)]
         ev = eig[vox]
+        if not V.symbolic and not np.all(np.isfinite(np.array(vec, dtype=complex))):
+            obl += [("%s_zero_or_unit_norm" % tag, O.const(False)), ("%s_first_coil_real_nonnegative" % tag, O.const(False))]
+            continue
         n2 = O.norm2(vec)
         is_zero = O.eq(np.array(vec, dtype=object if V.symbolic else None), np.zeros(nc))
         obl.append(("%s_zero_or_unit_norm" % tag, B.or_(is_zero, O.eq(n2, 1))))
         obl.append(("%s_first_coil_real_nonnegative" % tag, B.and_(O.is_real([vec[0]]), O.ge(vec[0], 0))))
         obl.append(("%s_zero_iff_eigenvalue_at_most_crop" % tag, B.and_(B.implies(O.le(ev, crop), is_zero), B.implies(O.gt(ev, crop), O.eq(n2, 1)))))
         obl.append(("%s_eigenvalue_nonnegative" % tag, O.ge(ev, 0)))
-        if cfg["kw"] == 1 and cfg["iters"] >= 2:
-            obl.append(("%s_eigenvalue_at_most_one" % tag, O.le(ev, 1)))
+        obl.append(("%s_eigenvalue_is_norm_of_G_x" % tag, O.eq(ev * ev, O.norm2(list(ys[vox])))))
     return obl
 
 
-HARNESSES = {"espirit": h_espirit}
+HARNESSES = {"gram": h_gram, "power": h_power}
+
+
+def _field(img):
+    return required_N(list(img), ortho=True)
 
 
 def configs(tier, seed):
     full = tier == "thorough"
     out = []
 
-    def add(**kw):
+    def add(h, **kw):
         ident = ":".join("%s=%s" % (k, kw[k]) for k in sorted(kw) if k != "cost")
-        kw.update(id="espirit:" + ident.replace(" ", ""), h="espirit", max_paths=3000, field=8)
+        kw.update(id="%s:%s" % (h, ident.replace(" ", "")), h=h, max_paths=3000)
+        kw.setdefault("field", _field(kw["img"]))
         kw.setdefault("cost", 100)
         out.append(kw)
-    for kw_, iters in ((1, 1), (1, 2), (2, 1), (2, 2)):
-        add(img=[2, 2], nc=2, calib=2, kw=kw_, iters=iters, cost=100 * iters * kw_)
+    for img in ([2, 2], [2, 3], [2, 2, 2]) + (([3, 2],) if full else ()):
+        for kw_ in (1, 2):
+            if len(img) == 3 and kw_ == 2 and not full:
+                continue
+            add("gram", img=img, nc=2, calib=2, kw=kw_)
+    add("gram", img=[2, 2], nc=2, calib=2, kw=1, orthonormal=True)
+    add("gram", img=[2, 3], nc=2, calib=2, kw=1, orthonormal=True)
+    add("gram", img=[3, 3], nc=2, calib=3, kw=2, cost=500)      # 4 blocks x 8 columns: a wide calibration matrix with several rows
     if full:
-        add(img=[2, 2], nc=2, calib=2, kw=1, iters=3, cost=800)
+        add("gram", img=[2, 2], nc=3, calib=2, kw=1)
+        add("gram", img=[3, 4], nc=2, calib=3, kw=2, cost=800)
+    add("power", img=[2, 2], nc=2, calib=2, kw=1, nvox=1, field=8)
+    add("power", img=[2, 2], nc=2, calib=2, kw=2, nvox=2, field=8, cost=300)
+    if full:
+        add("power", img=[2, 2], nc=3, calib=2, kw=1, nvox=1, field=8, cost=500)
     return out
